@@ -37,6 +37,9 @@ def _strip(t):
 def run(fb, rep, tier):
     c1_encoding(fb, rep, 'C04.1')
     c2_unproven_mates(fb, rep, 'C04.2')
+    # a node in check whose evasion list is empty is scored as checkmate: the list must be complete (shared with C01.1)
+    from . import C01
+    C01.c1_masks(fb, rep, clause='C04.3', only=('MoveGen::checkEvasions',))
 
 
 def encoders(fb, rep, clause):
@@ -47,27 +50,35 @@ def encoders(fb, rep, clause):
         return None
     f = pd[0]
     trees = []
+    mate0_q = 'SearchConst::MATE0'
+    ints = [p_ for p_ in f.d.get('params', []) if (p_.get('t') or '') == 'int']
+    if rep.need(clause, ints, 'the ply parameter of probeDTM') is None:
+        return None
+    ply_id = ints[0]['id']
     for b, i, e in f.events():
-        if e.get('k') == 'asg' and isinstance(e.get('l'), dict) and e['l'].get('n') == 'score' and any(n.get('k') == 'var' and n.get('n') == 'n' for n in walk(e.get('r'))):
+        if e.get('k') == 'asg' and e.get('op') == '=' and any(n.get('q') == mate0_q for n in walk(e.get('r'))):
             g = G.guards_of(f, set(f.blocks), b)
             trees.append((e.get('r'), g, e))
     win = next((t for t, g, e in trees if any('getMateInN' in x and not x.startswith('!') for x in g)), None)
     loss = next((t for t, g, e in trees if any('getMatedInN' in x and not x.startswith('!') for x in g)), None)
     if rep.need(clause, win, 'win score expression in probeDTM') is None or rep.need(clause, loss, 'loss score expression in probeDTM') is None:
         return None
-    ids = {}
-    for b, i, e in f.events():
-        if e.get('k') == 'decl':
-            for v in e.get('vars', []):
-                ids[v['n']] = v['id']
-    for p in f.d.get('params', []):
-        ids[p['n']] = p['id']
 
     def mk(tree):
+        others = {n['id'] for n in walk(tree) if n.get('k') == 'var' and 'id' in n and 'cv' not in n and n['id'] != ply_id}
+        if len(others) != 1:
+            raise Unknown('the score expression has %d free variables besides the ply' % len(others))
+        n_id = next(iter(others))
+
         def fn(n, ply):
-            return ev.eval(tree, {('v', ids['n']): n, ('v', ids['ply']): ply})
+            return ev.eval(tree, {('v', n_id): n, ('v', ply_id): ply})
         return fn
-    return ev, mk(win), mk(loss), f
+    try:
+        mw, ml = mk(win), mk(loss)
+    except Unknown as ex:
+        rep.broken(clause, 'probeDTM: %s' % ex)
+        return None
+    return ev, mw, ml, f
 
 
 def c1_encoding(fb, rep, clause):
@@ -95,11 +106,13 @@ def c1_encoding(fb, rep, clause):
             seen_ln = set()
             for b, i, e in f.events():
                 for nd in walk(e):
-                    if nd.get('k') == 'un' and nd.get('op') == '-' and 'MATE0' in show(nd) and 'ply' in show(nd):
+                    if nd.get('k') == 'un' and nd.get('op') == '-' and any(n.get('q') == 'SearchConst::MATE0' for n in walk(nd)):
                         inner = nd.get('e')
                         if any(n.get('k') == 'call' for n in walk(inner)):
                             continue
-                        pl = [n for n in walk(nd) if n.get('k') == 'var' and n.get('n') == 'ply']
+                        pl = [n for n in walk(nd) if n.get('k') == 'var' and n.get('vk') == 'param' and n.get('t') == 'int']
+                        if len({n.get('id') for n in pl}) != 1 or any(n.get('k') == 'var' and 'cv' not in n and n.get('vk') != 'param' for n in walk(nd)):
+                            continue
                         if not pl or (e.get('ln'), show(nd)) in seen_ln:
                             continue
                         seen_ln.add((e.get('ln'), show(nd)))
@@ -116,7 +129,8 @@ def c1_encoding(fb, rep, clause):
     # decoder: rule50Margin
     rm = fb.find1('rule50Margin')
     if rep.need(clause, rm, 'rule50Margin'):
-        ps = {p['n']: p['id'] for p in rm.d.get('params', [])}
+        pl_ = rm.d.get('params', [])
+        ps = {'dtmScore': pl_[0]['id'], 'ply': pl_[1]['id'], 'hmc': pl_[2]['id']} if len(pl_) >= 3 else {}
         bad = []
         n_eval = 0
         try:
@@ -150,8 +164,8 @@ def c1_encoding(fb, rep, clause):
         bad = []
         try:
             for nd in terms:
-                sv = [n for n in walk(nd.get('l')) if n.get('k') == 'var' and n.get('n') == 'score']
-                pv = [n for n in walk(nd.get('l')) if n.get('k') == 'var' and n.get('n') == 'ply']
+                sv = [n for c_ in walk(nd.get('l')) if c_.get('k') == 'call' and cname(c_) in ('std::abs', 'abs') for n in walk(c_) if n.get('k') == 'var' and 'id' in n]
+                pv = [n for n in walk(nd.get('l')) if n.get('k') == 'var' and 'id' in n and 'cv' not in n and n.get('id') not in {x.get('id') for x in sv}]
                 for n in N_RANGE:
                     for p in PLY_RANGE:
                         for s, plies in (((win(n, p), 2 * n - 1) if n >= 1 else (None, None)), (loss(n, p), 2 * n)):
@@ -173,7 +187,8 @@ def c1_encoding(fb, rep, clause):
     if rep.need(clause, npv, 'Search::notifyPV'):
         conv = {}
         for b, i, e in npv.events():
-            if e.get('k') == 'asg' and isinstance(e.get('l'), dict) and e['l'].get('n') == 'score' and 'MATE0' in show(e.get('r')):
+            if e.get('k') == 'asg' and isinstance(e.get('l'), dict) and e['l'].get('k') == 'var' and any(n.get('q') == 'SearchConst::MATE0' for n in walk(e.get('r'))) and \
+                    any(n.get('k') == 'var' and n.get('id') == e['l'].get('id') for n in walk(e.get('r'))):
                 g = G.guards_of(npv, set(npv.blocks), b)
                 kind = 'win' if any('isWinScore' in x and not x.startswith('!') for x in g) else ('loss' if any('isLoseScore' in x and not x.startswith('!') for x in g) else None)
                 conv[kind] = (e.get('r'), e['l'].get('id'))
@@ -202,8 +217,8 @@ def c1_encoding(fb, rep, clause):
     if rep.need(clause, g, 'TTEntry::getScore') and rep.need(clause, s, 'TTEntry::setScore'):
         bad = []
         try:
-            gp = {p['n']: p['id'] for p in g.d['params']}
-            sp = {p['n']: p['id'] for p in s.d['params']}
+            gp = {'ply': g.d['params'][0]['id']}
+            sp = {'score': s.d['params'][0]['id'], 'ply': s.d['params'][1]['id']}
             for n in range(0, 61, 3):
                 for p1 in range(0, 41, 5):
                     for p2 in range(0, 41, 7):
@@ -240,8 +255,9 @@ def c1_encoding(fb, rep, clause):
             rep.ob(clause, 'K12 range', 'every encoded mate score is classified as win/loss and fits 16 bits after the ply shift', not bad, w.where, str(bad[:3]), '')
     it = fb.find1('Search::iterativeDeepening')
     if it is not None:
-        ok = any(e.get('k') == 'decl' and any(v.get('n') == 'plyToMate' and show(_strip(v.get('init'))).replace(' ', '').startswith('(SearchConst::MATE0-std::abs') or
-                                              (v.get('n') == 'plyToMate' and 'MATE0' in show(v.get('init')) and 'abs' in show(v.get('init'))) for v in e.get('vars', []))
+        ok = any(e.get('k') == 'decl' and any(isinstance(_strip(v.get('init')), dict) and _strip(v['init']).get('k') == 'bin' and _strip(v['init']).get('op') == '-' and
+                                              (_strip(_strip(v['init']).get('l')) or {}).get('q') == 'SearchConst::MATE0' and
+                                              any(c_.get('k') == 'call' and cname(c_) in ('std::abs', 'abs') for c_ in walk(_strip(v['init']).get('r'))) for v in e.get('vars', []))
                  for _, _, e in it.events())
         rep.ob(clause, 'K10 decoder', 'iterativeDeepening stops deepening when the depth covers the plies to mate (MATE0 - |score|)', ok, it.where, '', it.sname)
 
